@@ -23,12 +23,12 @@ failure), whereas a state and a parameter of one name are definitions of differe
 with equal values.  Before gotranx is consulted an independent reader (oracles/_a_helpers.violations) must find the base
 clean and the planted fault present in the mutated text, otherwise the case is a harness error.  Failure = load,
 numpy generation or C generation all complete and return code (signature C08:accepted:<fault>[:<place>]); any exception
-= pass; no answer within 30 s while the base needed < 8 s = C08:hangs:<fault>.  Bases that gotranx itself cannot
-load/generate (or needs > 8 s for) are skipped.  quick: up to 1900 cases (about 40 per fault kind), thorough: up to 24000.
+= pass; no answer within 30 s while the base needed < 6 s = C08:hangs:<fault>.  Bases that gotranx itself cannot
+load/generate (or needs > 6 s for) are skipped.  quick: up to 1900 cases, thorough: up to 24000, dealt in rounds that plant each of the 39 fault kinds once (plus the 8 control kinds every 4th round).
 Non-trivial = mutated text differs from a base that loads and generates; distinct by sha1(mutated text)."""
 
 CASE_TIMEOUT = 30
-BASE_LIMIT = 8.0
+BASE_LIMIT = 6.0
 
 # fault -> (mutator name, kwargs, violation key the reference must find; None = control)
 FAULTS: dict = {}
@@ -312,9 +312,12 @@ ORDER = sorted(FAULTS, key=lambda f: (FAULTS[f][2] is None, not f.startswith(("d
 
 def cases(tier, seed, focus):
     n = 1900 if tier == "quick" else 24000
+    order = [f for f in ORDER if not focus or any(cm.focus_match(f"C08:{m}:{f}", focus) for m in ("accepted", "hangs"))] or ORDER
+    if all(FAULTS[f][2] is None for f in order):
+        order = ORDER
     j = r = 0
     while j < n:
-        for f in ORDER:
+        for f in order:
             if FAULTS[f][2] is None and r % 4:  # controls only every fourth round
                 continue
             yield {"mseed": seed * 100003 + j, "opts": ah.model_opts(j + r), "fault": f, "site": r + (seed % 7),
